@@ -1,6 +1,7 @@
 package work
 
 import (
+	"mime"
 	"fmt"
 
 	"github.com/gabriel-vasile/mimetype/internal/verifsim/core"
@@ -177,17 +178,25 @@ func lookupMatches(op *Op, res *OpRes, st state) (bool, string) {
 	return false, why
 }
 
+// mediaType is the "type/subtype" section of a MIME string as the standard library parses it.
+func mediaType(s string) string {
+	t, _, _ := mime.ParseMediaType(s)
+	return t
+}
+
 func lookupMatchesOne(res *OpRes, c model.Candidate) (bool, string) {
 	want, ext := c.Res, c.Ext
 	if res.R.Key() != want.Key() {
 		return false, want.Key()
 	}
 	if ext != nil {
-		names := ext.Names()
 		for i, got := range res.Is {
-			wantIs := false
-			for _, nm := range names {
-				wantIs = wantIs || nm == res.IsNames[i]
+			// Is compares "type/subtype" only: parameters, surrounding white space and
+			// letter case of the query and of the format's own type are ignored
+			q := mediaType(res.IsNames[i])
+			wantIs := q == mediaType(ext.Mime)
+			for _, nm := range ext.Aliases {
+				wantIs = wantIs || nm == q
 			}
 			if got != wantIs {
 				return false, fmt.Sprintf("%s with Is(%q)=%v", want.Key(), res.IsNames[i], wantIs)
